@@ -1,4 +1,4 @@
 (* Extraction of the executable model and specification of C14 (ExtrOcamlBasic only). *)
-From MptV Require Import C14.NodeModel C14.NodeSpec.
+From MptV Require Import C14.NodeModel C14.NodeSpec C14.ParseModel C14.ParseSpec.
 Require Import ExtrOcamlBasic NArith.
-Extraction "c14_model.ml" mrun srun empty_heap empty_sstate wfcheck exp_st count_unfreed live N.succ.
+Extraction "c14_model.ml" mrun srun hrun hsrun empty_heap empty_sstate wfcheck exp_st count_unfreed live N.succ.
